@@ -52,9 +52,41 @@ Definition model_fun (c : case) : bytes -> res bytes :=
 Definition model_out (c : case) : outcome :=
   replace_all_content (csig c) (model_fun c) (Some repo_budget) 0 (cin c).
 
+(* the run of the model stays inside the modelled fragment of strconv2 (Model/Strconv.v): every
+   default that is parsed satisfies text_in_fragment (e.g. at most 15 significant digits), every
+   configured value that is rendered satisfies val_in_fragment *)
+Definition step_in_fragment (cfg : bytes -> cval) (exp : bytes) : bool :=
+  let (key, dflt) := split_first b_colon exp in
+  let v := cfg key in
+  if absent v then
+    match dflt with
+    | Some (c :: d) => text_in_fragment (c :: d)
+    | _ => true
+    end
+  else val_in_fragment v.
+
+Fixpoint rac_in_fragment (cfg : bytes -> cval) (fuel : nat) (s : bytes) : bool :=
+  match find_first b_dollar s with
+  | None => true
+  | Some (i, n) =>
+    match fuel with
+    | O => true
+    | S k =>
+      let elr := firstn n (skipn i s) in
+      step_in_fragment cfg (content elr) &&
+        match resolve cfg (content elr) with
+        | Ok r => rac_in_fragment cfg k (replace_first s elr r)
+        | _ => true
+        end
+    end
+  end.
+
+Definition e2e_in_fragment (c : case) : bool := rac_in_fragment (cfg_of (ccfg c)) repo_budget (cin c).
+
 Definition check_case (c : case) : bool :=
   match ckind c with
-  | 0%nat | 1%nat => outcome_eqb (model_out c) (cobs c)
+  | 0%nat => outcome_eqb (model_out c) (cobs c)
+  | 1%nat => if e2e_in_fragment c then outcome_eqb (model_out c) (cobs c) else true
   | 2%nat =>
     if text_in_fragment (cin c) then
       match parse_any (cin c), cobs c with
